@@ -524,9 +524,9 @@ WellFormed ==
   /\ dd.used >= Len(ch) \/ dd.need = 0                   \* every given choice was consumed
 
 Emit ==
-  IF Canonical /\ Len(ch) >= EmitAt
-  THEN LET dd == Decode IN
-       PrintT(<<"VEC", ToJson([ch |-> ch, t |-> dd.t, n |-> dd.n, m |-> dd.m, r |-> dd.r,
+  LET dd == Decode IN
+  IF Canonical /\ (Len(ch) >= EmitAt \/ dd.need = 0)     \* simulation: only finished behaviours
+  THEN PrintT(<<"VEC", ToJson([ch |-> ch, t |-> dd.t, n |-> dd.n, m |-> dd.m, r |-> dd.r,
                                v |-> dd.v, x |-> dd.x])>>)
   ELSE TRUE
 
